@@ -9,6 +9,7 @@ import (
 	"os/exec"
 	"path/filepath"
 	"runtime"
+	"sort"
 	"strings"
 	"sync"
 	"sync/atomic"
@@ -244,7 +245,7 @@ func (p *Pool) cross(j Job, got Result) {
 	}
 	want := p.t.RunCLI(alt, j.Args...)
 	msg := ""
-	if want.Exit != got.Exit || want.Stdout != got.Stdout {
+	if want.Exit != got.Exit || NormStdout(want.Stdout) != NormStdout(got.Stdout) {
 		msg = fmt.Sprintf("exit/stdout differ: cli=%d %q batch=%d %q", want.Exit, want.Stdout, got.Exit, got.Stdout)
 	} else if d := DiffTrees(alt, j.Dir); d != "" {
 		msg = "files differ: " + d
@@ -349,4 +350,19 @@ func ParallelFor(n, workers int, f func(i int)) {
 		}()
 	}
 	wg.Wait()
+}
+
+// NormStdout removes the one run-to-run variation of gocc's messages that no property constrains: the front end lists
+// the expected tokens of a syntax error in map-iteration order. The list is sorted.
+func NormStdout(s string) string {
+	const key = "expected one of: "
+	lines := strings.Split(s, "\n")
+	for i, l := range lines {
+		if k := strings.Index(l, key); k >= 0 {
+			f := strings.Fields(l[k+len(key):])
+			sort.Strings(f)
+			lines[i] = l[:k+len(key)] + strings.Join(f, " ")
+		}
+	}
+	return strings.Join(lines, "\n")
 }
